@@ -45,7 +45,7 @@ def cases(tier):
         style = draw(st.sampled_from(["wrapped", "wrapped", "wrapped", "bare", "out_bare"]))
         m = draw(spec.methods(U, name="m0", styles=(style,)))
         # +-INF and NaN lie outside Double's declared default open range (gt=-inf, lt=inf)
-        vg = values.ValueGen(U, special_floats=False)
+        vg = values.ValueGen(U, special_floats=False, nil_items=True)
         if m["style"] == "bare":
             args = [draw(vg.single(t)) for _, t in m["args"]]
         else:
